@@ -148,7 +148,7 @@ def build_scenarios(P, run, quick, BUDGET, build_ops=("start_container", "run_sh
         return names[ctx.choose([True] * len(names), label)]
 
     def mk_build_config(ctx, tag, preproc_log):
-        if quick:
+        if quick or tag != "b0":
             pre, failure, ne = [(False, False, 1), (True, False, 0), (False, True, 0)][ctx.choose([True] * 3, f"{tag}:config")]
         else:
             pre = ctx.choose([True, True], f"{tag}:preprocessor?") == 1
@@ -268,7 +268,7 @@ def build_scenarios(P, run, quick, BUDGET, build_ops=("start_container", "run_sh
 
 def main(run):
     quick = run.tier == "quick"
-    BUDGET = 3 if quick else 4
+    BUDGET = 3
     FAULTS = 1 if quick else 2
     run.bounds = {"scenario": f"one TestRunner::build whose closure is any program of <= {BUDGET} steps from {{start_container(nested program), run_shell_command, "
                               "download_sbom_files(closure returns | panics), rebuild(nested program), panic, return}}, container programs from {logs_now, logs_wait, "
